@@ -441,9 +441,16 @@ func (fv *FV) mapLen(st *State, t types.Type, m string) string {
 // ---------------------------------------------------------------------------
 // Allocation and validity
 
-func (fv *FV) alloc(st *State) string {
+func (fv *FV) alloc(st *State) string { return fv.allocT(st, 0) }
+
+// allocT allocates an object and records what it was allocated as (ref-ty):
+// the tag of *T for a struct object made by new(T)/&T{}, 0 for everything
+// else (arrays, maps, closures, cells). The fact only reaches a query that
+// mentions ref-ty (the typed() builtin); gcDecls drops it otherwise.
+func (fv *FV) allocT(st *State, tag int) string {
 	r := fv.freshConst("ref", "Int")
 	fv.assume(st, eq(r, st.wm))
+	fv.emit(sx("assert", sx("=>", st.reach, eq(sx("ref-ty", r), intLit(int64(tag))))))
 	nw := fv.freshConst("wm", "Int")
 	fv.assume(st, eq(nw, sx("+", st.wm, "1")))
 	// fv.assume(st, sx(">", r, "0")) follows from wm0 > 0
